@@ -6,6 +6,7 @@
 
 mod engine;
 mod props;
+mod flow;
 mod render;
 mod seqmc;
 mod tape;
@@ -74,6 +75,8 @@ fn registry() -> Vec<PropDef> {
         prop!("C01", c01),
         prop!("C02", c02),
         prop!("C03", c03),
+        prop!("C04", c04),
+        prop!("C05", c05),
         prop!("C06", c06),
         prop!("C08", c08),
         prop_bfs!("C11", c11),
